@@ -310,4 +310,37 @@ SEGMENTS = {
         ],
         file="src/dev/write.rs",
     ),
+    # ---- slice load wrappers: cache miss -> add_cache_slice -> eviction write-back
+    "SL": dict(
+        parts=[
+            dict(file="src/dev/cache.rs", fn="add_l2_slice", start="FULL",
+                 sig="pub(crate) fn seg_sl_add_l2(&self, l1_e: &L1Entry, key: usize, slice_off: usize, slice: L2Table) -> Qcow2Result<()>",
+                 await_calls=["add_cache_slice", "flush_refcount", "flush_cache_entries"],
+                 rewrites=[(r"&self\.l2cache", "KWhich::L2"),
+                           (r"self\.k_flush_refcount\(", "self.k_sl_flush_refcount("),
+                           (r"self\.k_flush_cache_entries\(", "self.k_sl_flush_cache_entries(")]),
+            dict(file="src/dev/cache.rs", fn="get_l2_slice_slow", start="FULL",
+                 sig="pub(crate) fn seg_sl_get_l2_slow(&self, l1_e: &L1Entry, split: &SplitGuestOffset) -> Qcow2Result<KTok>",
+                 await_calls=["add_l2_slice"],
+                 rewrites=[(r"&self\.l2cache", "&self.sl.l2"),
+                           (r"self\.k_add_l2_slice\(", "self.seg_sl_add_l2(")]),
+            dict(file="src/dev/cache.rs", fn="get_l2_slice", start="FULL",
+                 sig="pub(crate) fn seg_sl_get_l2(&self, split: &SplitGuestOffset) -> Qcow2Result<KTok>",
+                 await_calls=["get_l1_entry", "get_l2_slice_slow"],
+                 rewrites=[(r"self\.l2cache", "self.sl.l2"),
+                           (r"self\.k_get_l1_entry\(", "self.k_sl_get_l1_entry("),
+                           (r"self\.k_get_l2_slice_slow\(", "self.seg_sl_get_l2_slow(")]),
+            dict(file="src/dev/alloc.rs", fn="add_rb_slice", start="FULL",
+                 sig="pub(crate) fn seg_sl_add_rb(&self, rt_e: &RefTableEntry, key: usize, slice_off: usize, slice: RefBlock) -> Qcow2Result<()>",
+                 await_calls=["add_cache_slice", "flush_cache_entries"],
+                 rewrites=[(r"&self\.refblock_cache", "KWhich::Rb"),
+                           (r"self\.k_flush_cache_entries\(", "self.k_sl_flush_cache_entries(")]),
+            dict(file="src/dev/alloc.rs", fn="get_refblock", start="FULL",
+                 sig="pub(crate) fn seg_sl_get_rb(&self, cls: &HostCluster, rt_e: &RefTableEntry) -> Qcow2Result<KTok>",
+                 await_calls=["add_rb_slice"],
+                 rewrites=[(r"&self\.refblock_cache", "&self.sl.rb"),
+                           (r"self\.k_add_rb_slice\(", "self.seg_sl_add_rb(")]),
+        ],
+        file="src/dev/cache.rs",
+    ),
 }
